@@ -461,8 +461,18 @@ async fn scenario(a: &ShardArgs, idx: u64) {
             let mut body = objs.clone();
             let mut verdict = Verdict::Accept;
             let mut label = "faithful".to_string();
+            let mut split: Option<(u16, u16)> = None;
             if noise {
-                match r.below(10) {
+                match r.below(11) {
+                    10 => {
+                        // the faithful fragment in two transport segments that come from two sources: the first (with the
+                        // response header and the sequence number) from another outstation, the last from the right one,
+                        // or the other way round. A fragment is assembled from one source only: never accepted
+                        let other = if r.bool() { 1025 } else { 77 };
+                        split = Some(if r.bool() { (other, dest) } else { (dest, other) });
+                        verdict = Verdict::Ignore;
+                        label = format!("mixed-sources-{}-{}", split.unwrap().0, split.unwrap().1);
+                    }
                     9 => {
                         // an unsolicited response that is not a single fragment (FIR and FIN both required): never
                         // delivered, never confirmed; whether the outstanding request survives it is left open
@@ -573,7 +583,15 @@ async fn scenario(a: &ShardArgs, idx: u64) {
                 sim.now(),
                 hex(&frag[..frag.len().min(40)])
             ));
-            sim.send_from(src, &frag);
+            match split {
+                Some((a0, a1)) if frag.len() <= 490 => {
+                    sim.send_split_from(a0, a1, &frag);
+                    out::count("mixed_source_responses_sent", 1);
+                }
+                // (too long for two segments: all of it from the other source)
+                Some((a0, a1)) => sim.send_from(if a0 == dest { a1 } else { a0 }, &frag),
+                None => sim.send_from(src, &frag),
+            }
             settle().await;
             let rx = sim.collect();
             let o = crate::verif::io::bump();
